@@ -384,7 +384,12 @@ func (v *v0ProtocolMarshaler) unmarshalFrame(frame []byte, components *frameComp
 	}
 
 	components.headers = headers
-	components.payload = frame[v.calculateHeaderSize(headers)+8:]
+	payloadStart := int(v.calculateHeaderSize(headers)) + 8
+	if payloadStart > len(frame) {
+		return thrift.NewTProtocolExceptionWithType(thrift.INVALID_DATA,
+			fmt.Errorf("frugal: invalid v0 frame, payload offset %d exceeds frame size %d", payloadStart, len(frame)))
+	}
+	components.payload = frame[payloadStart:]
 
 	return nil
 }
